@@ -157,6 +157,17 @@ pub struct Scenario {
     pub step_cap: u64,
     /// capture live/rows images at every quiescent point
     pub capture: bool,
+    /// time passes between client actions: before the client's n-th action (counted from 0) the clock jumps
+    /// forward and the engine's tick fires, while interrupts are open.  Keyed to the client's progress, not to the
+    /// quiescent-point index, so that an inserted fault (restart, eviction) does not move it
+    #[serde(default, skip_serializing_if = "Vec::is_empty")]
+    pub time_ops: Vec<TimeOp>,
+}
+
+#[derive(Clone, Debug, Serialize, Deserialize, PartialEq)]
+pub struct TimeOp {
+    pub before_action: u32,
+    pub jump_us: i64,
 }
 
 impl Default for Scenario {
@@ -178,6 +189,7 @@ impl Default for Scenario {
             max_ops: 400,
             step_cap: 20_000,
             capture: false,
+            time_ops: vec![],
         }
     }
 }
@@ -189,7 +201,7 @@ impl Scenario {
         vsim::hash_str(&v.to_string())
     }
     pub fn fault_hash(&self) -> u64 {
-        let v = serde_json::json!({"f": self.faults, "co": self.chan_ops, "t": self.ticks, "j": self.pre_jump_us});
+        let v = serde_json::json!({"f": self.faults, "co": self.chan_ops, "t": self.ticks, "j": self.pre_jump_us, "to": self.time_ops});
         vsim::hash_str(&v.to_string())
     }
 }
